@@ -57,7 +57,8 @@ class Skip(Exception):
 # ------------------------------------------------------------------ registry
 class Obligation:
     def __init__(self, name, fn, kind="lia", expect="proved", samples=40, fuc=(), note="", bounded_only=False,
-                 max_paths=20000, stubs=None, timeout_ms=None):
+                 max_paths=20000, stubs=None, timeout_ms=None, inductive=False):
+        self.inductive = inductive    # obligation over a havoc'd (invariant-only) state: counter-models need not be reachable
         self.name = name
         self.fn = fn
         self.kind = kind
@@ -644,7 +645,14 @@ def _verdict(ob, res, rec, sym_ok):
     if real:
         return "refuted"
     if violated:
-        return "refuted-no-input"
+        # solver says sat but the counter-model does not reproduce on the real code and the bounded native search
+        # found nothing: for an inductive obligation (invariant not preserved from a havoc'd state) this is reported as
+        # a violation without failing input; for a loop-free obligation it means the encoding is imprecise -> undecided
+        if ob.inductive:
+            return "refuted-no-input"
+        res["crash"] = "undecided: counter-model not reproducible on the real code (encoding imprecise here): " + \
+            ", ".join(v[0] for v in violated)
+        return "undecided"
     if res["crash"]:
         return "undecided" if res["crash"].startswith("undecided") else "crash"
     if undecided:
